@@ -909,7 +909,7 @@ def gen_c02(rng, t):
         lab = rng.choice(LABELS)
         big = (i % 40 == 0)
         pl = rng.choice([rng.range(1, 60), rng.range(1, 60), rng.range(60, 700), near(rng, 4090, 4096, 8190, lo=1)]) if not big \
-            else rng.choice([65535 - 2 - lab_len(lab), 65000, 20000])
+            else rng.choice([65535 - 2 - lab_len(lab), 65535 - 2 - lab_len(lab), 65534 - 2 - lab_len(lab), 65000, 20000])
         slots = rng.choice([1, 2, 4])
         c.add("ENEW", "DNEW %d %d simple" % (slots, pl), "DPROV %d" % (pl + rng.range(0, 3)))
         fid = rng.below(256)
@@ -953,6 +953,8 @@ def orc_c02(case, obs):
     t = case.ops[idx].split(" ")
     pdu, pt, lab = tok_bytes(t[1]), int(t[3]), t[4]
     e = EncObs(obs[idx])
+    if e.err is not None and int(t[5]) >= 13 and len(pdu) + 2 + lab_len(lab) <= 65535 and (pt >= 0x600 or pt < 0x100) and lab != ZERO6:
+        bad.append("encap refused a PDU within the 16-bit total length although the buffer holds a first fragment: %s" % obs[idx][:60])
     if not (e.ok and e.status == "F"):
         return bad
     ctx_len = e.ctx[2]
@@ -1448,7 +1450,56 @@ def orc_c04(case, obs):
     return bad
 
 
-prop("C04", ["c04_attribution", "c04_sync", "c04_receiver_only"], ["SYS"], gen_c04, [orc_c04])
+
+def orc_c04_receiver(case, obs):
+    """receiver-only clause: a re-use start/complete packet is only ever resolved to the label carried by the nearest
+    preceding start/complete packet of the same frame (a frame ends at a reset of the label memory or at padding)"""
+    bad = []
+    if not case.meta.get("c04") and not case.name.startswith(("SYS.", "DEC.")):
+        return bad
+    mem = None          # label string, None (nothing usable), or "?" (a start/complete packet was rejected: not judged)
+    last_pkt = None
+    for op, ob in zip(case.ops, obs):
+        t = op.split(" ")
+        if t[0] in ("ENCAP", "EEXT", "EFRAG", "EFRAGC"):
+            e = EncObs(ob)
+            last_pkt = e.pkt if e.ok else None
+            continue
+        if t[0] in ("DNEW", "DRESET"):
+            mem = None
+            continue
+        if t[0] == "DECAP":
+            pkt = tok_bytes(t[1])
+        elif t[0] in ("DECAPN", "DECAPL"):
+            if ob == "nopkt" or last_pkt is None:
+                continue
+            pkt = last_pkt
+        else:
+            continue
+        if len(pkt) < 2:
+            mem = None
+            continue
+        s_e, lt = pkt[0] >> 6, (pkt[0] >> 4) & 3
+        if (pkt[0] >> 4) == 0:
+            mem = None                          # padding: the rest of the frame is empty
+            continue
+        if s_e in (0, 1):
+            continue                            # intermediate / end packets carry no label
+        w, d = kv(ob)
+        ok = bool(w) and w[0] == "ok" and "label" in d
+        if lt == 3:
+            if ok and mem != "?" and d["label"] != mem:
+                bad.append("re-use packet resolved to %s; the nearest preceding start/complete packet of the frame carried %s" % (d["label"], mem))
+            if not ok:
+                mem = "?" if mem is not None else None
+        elif lt == 2:
+            mem = None if ok else "?"
+        else:
+            mem = d["label"] if ok else "?"
+    return bad
+
+
+prop("C04", ["c04_attribution", "c04_sync", "c04_receiver_only"], ["SYS", "DEC"], gen_c04, [orc_c04, orc_c04_receiver])
 
 
 # ------------------------------------------------------------------------------------------------
@@ -1503,6 +1554,23 @@ def big_trains(rng, prefix):
     return out
 
 
+
+def fragment_x(pdu, fid, ptype, label, sizes, chain):
+    """like gsepy.fragment, with an extension area (optional extensions only: any receiver can read them) in the first fragment"""
+    total = len(pdu) + 2 + len(label_bytes(label))
+    crc = gse_crc(pdu, ptype, total, label_bytes(label))
+    area = b""
+    for k, (eid, d) in enumerate(chain):
+        area += d + (chain[k + 1][0] if k + 1 < len(chain) else ptype).to_bytes(2, "big")
+    pkts, off = [], 0
+    for i, sz in enumerate(sizes):
+        chunk = pdu[off:off + sz]
+        off += sz
+        pkts.append(build_first(fid, total, ptype, label, chunk, exts=area, first_id=chain[0][0]) if i == 0 else build_inter(fid, chunk))
+    pkts.append(build_end(fid, pdu[off:], crc))
+    return pkts
+
+
 def gen_c03(rng, t):
     out = []
     for i in range(700 * t):
@@ -1527,8 +1595,12 @@ def gen_c03(rng, t):
             left -= s
         sizes = sizes or [0]
         pt = rng.choice([0x0800, 0x86DD, 0xFFFF])
-        train = fragment(pdu, fid, pt, lab, sizes)
-        fault = rng.below(11)
+        if i % 6 == 4:
+            chain = [rng.choice([(0x0100, b""), (0x0233, b"\x01\x02"), (0x0301, b"\x01\x02\x03\x04"), (0x0500, bytes(range(8)))]) for _ in range(rng.range(1, 2))]
+            train = fragment_x(pdu, fid, pt, lab, sizes, chain)
+        else:
+            train = fragment(pdu, fid, pt, lab, sizes)
+        fault = rng.below(11) if i % 6 != 4 else rng.choice([99, 99, 0, 1, 2, 3, 5])
         seq = list(train)
         protected_only = False
         if fault >= 9:
@@ -1598,7 +1670,7 @@ def orc_c03(case, obs):
         okf = w[:2] == ["ok", "fragmented"]
         if p.kind == "F":
             if okf:
-                trains[p.fid] = {"total": p.total, "ptype": int(d["ptype"]), "label": d["label"], "wire_ll": LT_LEN[p.lt],
+                trains[p.fid] = {"total": p.total, "ptype": int(d["ptype"]), "label": d["label"], "wire_ll": LT_LEN[p.lt], "exts": d.get("exts"),
                                  "crc_label": b"" if p.lt == 3 else label_bytes(p.label), "ps": [bytes(p.payload)]}
         elif p.kind == "I":
             if okf and p.fid in trains:
@@ -1618,7 +1690,7 @@ def orc_c03(case, obs):
                     bad.append("delivered PDU whose CRC-32 differs from the trailer")
                 if d["data"] != hx(P) or int(d["pdulen"]) != len(P):
                     bad.append("delivered bytes are not the concatenation of the received payloads")
-                if int(d["ptype"]) != tr["ptype"] or d["label"] != tr["label"]:
+                if int(d["ptype"]) != tr["ptype"] or d["label"] != tr["label"] or d.get("exts") != tr["exts"]:
                     bad.append("delivered metadata differ from the first fragment's")
     m = case.meta.get("c03")
     if m and m["burst"]:
